@@ -13,6 +13,7 @@ import (
 	"os"
 	"strconv"
 	"strings"
+	"time"
 
 	"github.com/gnolang/gno/gno.land/pkg/sdk/vm"
 	bft "github.com/gnolang/gno/tm2/pkg/bft/types"
@@ -163,6 +164,9 @@ func main(cur realm) {
 type variant struct {
 	db      string
 	restart uint64 // bit i set => restart (new app object, cold caches; persistent back ends: DB reopened) before block i
+	dir     string // persistent DB directory kept between processes (process-split runs)
+	from    int    // first block executed by this process (earlier blocks were executed by a previous process on the same DB)
+	to      int    // one past the last block executed by this process (0 = all)
 }
 
 func parseVariant(x string) variant {
@@ -177,6 +181,12 @@ func parseVariant(x string) variant {
 			v.db = p[1]
 		case "restart":
 			v.restart, _ = strconv.ParseUint(p[1], 10, 64)
+		case "dir":
+			v.dir = p[1]
+		case "from":
+			v.from, _ = strconv.Atoi(p[1])
+		case "to":
+			v.to, _ = strconv.Atoi(p[1])
 		}
 	}
 	return v
@@ -186,11 +196,15 @@ func main() {
 	f := mbt.ParseFlags()
 	v := parseVariant(f.Extra)
 	rng := rand.New(rand.NewSource(f.Seed)) // the HISTORY depends on the seed only, never on the variant
-	dir, err := os.MkdirTemp("", "hist-db")
-	if err != nil {
-		mbt.Die("%v", err)
+	dir := v.dir
+	if dir == "" {
+		var err error
+		dir, err = os.MkdirTemp("", "hist-db")
+		if err != nil {
+			mbt.Die("%v", err)
+		}
+		defer os.RemoveAll(dir)
 	}
-	defer os.RemoveAll(dir)
 	openDB := func() dbm.DB {
 		db, err := dbm.NewDB("gnolang", dbm.BackendType(v.db), dir)
 		if err != nil {
@@ -203,13 +217,24 @@ func main() {
 	for _, n := range []string{"a", "b", "c", "deployer"} {
 		accts[n] = appenv.NewAccount(n)
 	}
-	e, err := appenv.New(appenv.Options{
-		DB: db, MaxGas: 400_000_000,
-		Balances: map[crypto.Address]int64{accts["a"].Addr: 900_000_000, accts["b"].Addr: 900_000_000, accts["c"].Addr: 900_000_000, accts["deployer"].Addr: 900_000_000},
-		Deployer: accts["deployer"],
-	})
-	if err != nil {
-		mbt.Die("new: %v", err)
+	var e *appenv.Env
+	var err error
+	if v.from > 0 {
+		// a later process of a process-split run: the chain already exists on disk; a true restart (every
+		// process-global cache cold)
+		e = &appenv.Env{DB: db, Time: time.Unix(1_700_000_000, 0).UTC().Add(time.Duration(5*v.from) * time.Second)}
+		if err := e.Reopen(); err != nil {
+			mbt.Die("reopen: %v", err)
+		}
+	} else {
+		e, err = appenv.New(appenv.Options{
+			DB: db, MaxGas: 400_000_000,
+			Balances: map[crypto.Address]int64{accts["a"].Addr: 900_000_000, accts["b"].Addr: 900_000_000, accts["c"].Addr: 900_000_000, accts["deployer"].Addr: 900_000_000},
+			Deployer: accts["deployer"],
+		})
+		if err != nil {
+			mbt.Die("new: %v", err)
+		}
 	}
 	out, err := os.Create(f.Out)
 	if err != nil {
@@ -236,8 +261,13 @@ func main() {
 	deployStep := 0
 	counter := 0
 	okc, failc := 0, 0
-	for b := 0; b < nblocks; b++ {
-		if v.restart&(1<<uint(b)) != 0 {
+	last := nblocks
+	if v.to > 0 && v.to < nblocks {
+		last = v.to
+	}
+	for b := 0; b < last; b++ {
+		dry := b < v.from // executed by an earlier process: only consume the generator's randomness
+		if !dry && v.restart&(1<<uint(b)) != 0 {
 			if v.db != "memdb" {
 				e.DB.Close()
 				e.DB = openDB()
@@ -246,10 +276,12 @@ func main() {
 				mbt.Die("reopen: %v", err)
 			}
 		}
-		for _, n := range names {
-			seqs[n] = e.Account(accts[n].Addr).Seq
+		if !dry {
+			for _, n := range names {
+				seqs[n] = e.Account(accts[n].Addr).Seq
+			}
+			e.BeginBlock()
 		}
-		e.BeginBlock()
 		ntx := 1 + rng.Intn(4)
 		var txs []map[string]any
 		for t := 0; t < ntx; t++ {
@@ -282,6 +314,9 @@ func main() {
 					vm.NewMsgCall(signer.Addr, nil, "gno.land/r/verif/list", "Add", []string{"tmp", "1"}),
 					vm.NewMsgCall(signer.Addr, nil, "gno.land/r/verif/list", "Drop", []string{"never-there"}))
 			}
+			if dry {
+				continue
+			}
 			ai := e.Account(signer.Addr)
 			tx := appenv.SignTx(msgs, gw, 100_000, appenv.ChainID, signer, ai.Num, seqs[s])
 			r := e.Deliver(tx)
@@ -298,6 +333,9 @@ func main() {
 				"result": hex.EncodeToString(bft.NewResultFromResponse(r).Bytes()), // Error + Data + Events: what the results hash covers
 				"used":   r.GasUsed, "wanted": r.GasWanted,
 			})
+		}
+		if dry {
+			continue
 		}
 		_, c := e.EndBlockCommit()
 		snap, _ := e.QEval("gno.land/r/verif/list", "Snapshot()")
